@@ -380,11 +380,20 @@ def run(ctx):
         ctx.anchor(len(news) == 1, 'make_reference:ExternalReference::new')
         for nb, nt in news:
             cr = B.origin(nt['args'][1])
+            via_accessor = False
+            if cr[0] == 'call' and cr[1] == 'edp_node::node::Node::creation' and P.B(cr[1]) is not None:
+                # through the accessor `self.creation()`: what the accessor returns
+                AB_ = P.B(cr[1])
+                lo_ = [AB_.origin(t2['args'][0]) for b2, t2 in AB_.calls() if (callee_of(t2)[0] or '').endswith('::load') and t2['args']]
+                if len(lo_) == 1 and lo_[0][0] == 'arg' and 'creation' in lo_[0][2] and B.origin(B.blocks[cr[2]]['t']['args'][0])[:2] == ('arg', 1):
+                    via_accessor = True
             okc = cr[0] == 'call' and cr[1] and cr[1].endswith('::load')
             if okc:
                 o2 = B.origin(B.blocks[cr[2]]['t']['args'][0])
                 okc = o2[0] == 'arg' and 'creation' in o2[2]
-            if okc:
+            if via_accessor:
+                ctx.ok('C16.5-creation', 'make_reference', 'creation read from the creation atomic through self.creation()', ctx.where(B, nb))
+            elif okc:
                 ctx.ok('C16.5-creation', 'make_reference', 'creation read from the creation atomic', ctx.where(B, nb))
             else:
                 ctx.bad('C16.5-creation', 'make_reference', 'reference creation does not come from self.creation', ctx.where(B, nb),
